@@ -467,12 +467,16 @@ def run(ctx):
                          "canonical JSON, non-trivial if it has at least one operation")
     ctx.trusted += [
         "translator translate/gen_path.py + py2coq.py (path_padding_param, pad_slice_path -> Gallina)",
+        "translator translate/gen_pathflow.py (+ gen_l2arith.exp): statement-level flow of multi_anchor_behavior, "
+        "path_padding, apply_move, apply_rotation, move/_rotate/rotate/rotate_from_*, _init_position_orientation, the "
+        "pose setters and reset_path as a deep embedding; Proofs/PathFlowProofs.v proves it equal to the structure the "
+        "hand models were written against (Model/PathFlow.v) and interprets pad widths / slices / forwarded arguments",
         "hand model coq/Model/PathModel.v of path_padding/apply_move/multi_anchor_behavior/apply_rotation/"
         "setters, tied by the history correspondence (Sensor objects, exact inputs)",
         "input validation (check_format_input_*) and scipy's Rotation.from_* conversions are not modelled; "
         "they are exercised by the rejection battery and the rotate_from_* equivalence sweep",
     ]
-    ok = ctx.regen(["GenPath"])
+    ok = ctx.regen(["GenPath", "GenPathFlow"])
     built = ctx.build_props() and ok
     if ctx.tier == "thorough" and built:
         ctx.coqchk("MV.Props.C09")
